@@ -5,6 +5,7 @@ one thread holds the baton.  *Who runs next* is decided only here, from a PRNG s
 by the scenario, so one seed is one exactly repeatable execution.  See DESIGN.md 2.2.
 """
 import pickle
+import math
 import random
 import threading
 
@@ -128,6 +129,7 @@ DEFAULT_CFG = dict(
     long_lat=(0.06, 0.5),
     pipe_cap=None,  # bytes in flight before a sender blocks (None = unbounded)
     canonical=False,  # zero jitter, FIFO tie-break, no faults
+    clock_res=0.0,  # fault "coarse clock": time() only changes every clock_res seconds (two readings can be equal)
     max_yields=2_000_000,
 )
 
@@ -150,7 +152,8 @@ class Sim:
         self.keep_events = True
         self.nyields = 0
         self.stats = dict(switches=0, stalls=0, poll_timeouts=0, msgs=0, long_lat=0,
-                          send_blocked=0, clock_reads=0, spurious_reorder=0)
+                          send_blocked=0, clock_reads=0, coarse_equal=0)
+        self._shown = None
         self.main = Task(self, "main", None, ())
         self.main.thread = threading.current_thread()
         self.main.wake = 0.0
@@ -314,6 +317,13 @@ class Sim:
     def time(self):
         self.stats["clock_reads"] += 1
         self.pause(1e-6 if self.cfg["canonical"] else self.u(self.cfg["op"]), stallable=False)
+        res = self.cfg.get("clock_res") or 0.0
+        if res > 0:
+            shown = math.floor(self.now / res) * res
+            if shown == self._shown:
+                self.stats["coarse_equal"] += 1
+            self._shown = shown
+            return self.EPOCH + shown
         return self.EPOCH + self.now
 
     def live_workers(self):
